@@ -56,4 +56,14 @@ Definition assert_alternatives (c : cnd) : list (bool * cnd) :=
    simplifies to false, i.e. holds nowhere) *)
 Definition assume_alternatives (c : cnd) : list cnd := [c].
 
+(* ---- apply_vmaddr (vm.addr / vm.sign): key terms seen before are remembered with their addresses;
+   a new key term k gets the address f k and, for every remembered (k', a'), the path constraint
+   k <> k' -> f k <> a'   (the guard is there iff vmaddr_distinctness_guarded).  f is the
+   uninterpreted f_vmaddr. *)
+Definition vmaddr_constraints (f : Z -> Z) (known : list ((V -> Z) * (V -> Z))) (k : V -> Z) : list cnd :=
+  map (fun ka => fun v =>
+         if vmaddr_distinctness_guarded
+         then (k v =? fst ka v) || negb (f (k v) =? snd ka v)
+         else negb (f (k v) =? snd ka v)) known.
+
 End BranchPoints.
